@@ -604,6 +604,8 @@ def _run(ctx, uberjob, Plan, Node, Call, Literal, PositionalArg, KeywordArg, _bu
                 src[node] = ("lit", o)
                 G.nodes.append(node)
                 G.tag[node], G.size[node] = ("unknown" if Ref(U, src).has_node(o) else tg), sz
+                if type(o) in (int, str):
+                    G.const[node] = o        # {"a": 1, lit("a"): 2} collides as well
                 G.text.append("n%d = lit(%s)" % (U.num[node], short(U, o)))
             elif r < 0.86:
                 o, sz, tg = G.expr(depth)
